@@ -213,6 +213,11 @@ def exec_place(item):
             open_.add((rid, ln, sol))  # straddles a tag boundary: unconstrained
     got = {(rid, ln, sol) for rid, ln, sol, v in Vt}
     r.states.add(base.h64(sorted(got)))
+    # a violation REPORTED on a line where the model has the rule switched off must not appear, whatever its token span
+    for rid, ln, sol in sorted(got):
+        s = mdl.get(ln)
+        if s is not None and suppressed(s, rid) and not r.violations:
+            r.violations.append({"key": ("placement", "tagged_rule_reported_on_tagged_line", item["shape"]), "detail": {"violation": [rid, ln, sol], "tags": tags}, "item": strip})
     missing = sorted(exp - got)
     extra = sorted(got - exp - open_)
     # violations that only exist because the comment is a tag (e.g. comment rules on the tag line itself) are about the tag line: not constrained
@@ -242,9 +247,44 @@ def exec_place(item):
     return r
 
 
+def exec_wrapfix(item):
+    """a rule switched off for the whole file by tags fixes nothing: checked for every rule that fixes anything on the seed
+    (including rules that only fire on what earlier rules inserted).  (A text comparison with "rule disabled by configuration"
+    would be unsound: a tagged-off rule is still analysed, a disabled one is not, and library_009's analysis writes indent levels.)"""
+    r = explore.Result()
+    src = corpus.lines_of(item["seed"])
+    base_run = report_of(src, item, argv=(), fix=True)
+    r.transitions = 1
+    if base_run.outcome != "ok" or base_run.rl is None:
+        r.notes += common.to_result(base_run, PROP).notes
+        return r
+    rules = sorted(set(base_run.effective_rules))
+    n = len(src)
+
+    def strip(lines):
+        return [l for l in lines if not l.strip().startswith(("-- vsg_o", "-- xxx"))]
+
+    for rid in rules:
+        off, on = f"-- vsg_off {rid}", f"-- vsg_on {rid}"
+        tagged = ["  " + off] + list(src) + ["  " + on]
+        a = report_of(tagged, item, argv=(), fix=True)
+        r.transitions += 1
+        if a.outcome != "ok":
+            continue
+        if rid in a.effective_rules:
+            r.violations.append({"key": ("wrapfix", "rule_switched_off_by_tags_for_the_whole_file_still_fixed", rid), "detail": {"rule": rid}, "item": dict(item)})
+            return r
+    r.nontrivial = item["id"] if rules else None
+    if rules and item["seed"].endswith("rule_018"):
+        r.sample = {"id": item["id"], "rules_compared": rules[:8]}
+    return r
+
+
 def execute(item):
     if "events" in item:
         return exec_seq(item)
+    if item.get("shape") == "wrapfix":
+        return exec_wrapfix(item)
     return exec_place(item)
 
 
@@ -264,10 +304,15 @@ def seq_items(depth):
 def place_items(tier):
     out = []
     seeds = corpus.small_slice(max_lines=25)
+    if tier != "quick":
+        seeds = sorted(set(seeds) | {s for s in corpus.seed_ids(("fix",)) if len(corpus.lines_of(s)) <= 40})
     if tier == "quick":
-        seeds = [s for s in seeds if s.startswith("fix/")][:40] + [s for s in seeds if s.startswith("gen/")][:20]
+        seeds = [s for s in seeds if s.startswith("fix/")] + [s for s in seeds if s.startswith("gen/")][::3]
     from .. import layout
 
+    fixs = corpus.seed_ids(("fix",))
+    for s in (fixs[::9] if tier == "quick" else fixs) + [x for x in corpus.small_slice() if x.startswith("gen/")]:
+        out.append({"id": f"{s}#wrapfix", "seed": s, "style": None, "cfg": None, "shape": "wrapfix"})
     for s in seeds:
         si = universe.seedinfo(s)
         n = len(si.lines)
@@ -276,7 +321,7 @@ def place_items(tier):
         pos = sorted(set(pos))
         out.append({"id": f"{s}#wrap", "seed": s, "style": None, "cfg": None, "tags": [[0, "-- vsg_off"], [n, "-- vsg_on"]], "shape": "wrap_all", "fixcheck": True})
         for i, j in itertools.combinations(pos, 2):
-            if tier == "quick" and (j - i) > 6:
+            if tier == "quick" and (j - i) > 3:
                 continue
             out.append({"id": f"{s}#off@{i}-on@{j}", "seed": s, "style": None, "cfg": None, "tags": [[i, "-- vsg_off"], [j, "-- vsg_on"]], "shape": "pair_bare"})
         rid = corpus.rule_of_seed(s)
@@ -286,7 +331,7 @@ def place_items(tier):
                 out.append({"id": f"{s}#next:{r1}@{i}", "seed": s, "style": None, "cfg": None, "tags": [[i, f"-- vsg_disable_next_line {r1}"]], "shape": "next"})
         for r1 in ids:
             for i, j in itertools.combinations(pos, 2):
-                if tier == "quick" and (j - i) > 4:
+                if tier == "quick" and (j - i) > 3:
                     continue
                 out.append({"id": f"{s}#off:{r1}@{i}-on@{j}", "seed": s, "style": None, "cfg": None, "tags": [[i, f"-- vsg_off {r1}"], [j, f"-- vsg_on {r1}"]], "shape": "pair_rule"})
     return out
@@ -304,7 +349,8 @@ def main(tier):
         "each rendered as a small file whose code lines violate a case rule and a whitespace rule; the real parse + analysis must report each rule on each code line iff the reference model "
         "(written from docs/code_tags.rst) does not suppress it; lines on which the document is silent impose nothing; (2) on real seeds every placement of a bare off/on pair, of a rule off/on pair "
         "and of a next-line tag at admissible line boundaries: V(tagged) must equal the model filter of V(same file with neutral comments), violations straddling a tag boundary unconstrained; "
-        "a file wrapped in vsg_off must come out of --fix unchanged apart from trailing whitespace; non-trivial = sequences with a defined model / seeds with violations",
+        "a file wrapped in vsg_off must come out of --fix unchanged apart from trailing whitespace; for every rule that fixes anything on a seed, --fix with that rule tagged off for the whole file must show no "
+        "effective transition of that rule; non-trivial = sequences with a defined model / seeds with violations",
         ["the reference model is ~40 lines of Python next to the oracle; unspecified: `vsg_on x` while everything is off, a bare next-line tag, a next-line tag followed by an off/on tag"],
         extra_cov={"tag_sequences": m1.evaluations, "placements": m2.evaluations, "unspecified_lines_skipped": m1.extra.get("unspecified_lines", 0)},
         reproduce=reproduce,
